@@ -19,7 +19,10 @@ def _(self) -> Int:
 
 
 @contract("Decoder.skip_bits", props=["C05", "C16", "C08", "C07"])
-def _(self, number_of_bits: Nat):
+def _(self, number_of_bits: Int):
+    # a negative count moves the read position back (used after an open type whose content overran its announced
+    # length); never before the start of the data
+    requires(self.number_of_bits - number_of_bits <= self.total_number_of_bits)
     raises_iff(OutOfDataError, number_of_bits > self.number_of_bits,
                ensures=[self.number_of_bits == old(self.number_of_bits)])
     assigns(self)
@@ -158,12 +161,16 @@ def _(self, length: Nat) -> Nat:
                     and self.value == 256 * old(self.value) + 192 + result // 16384))
 
 
-@contract("Decoder.read_length_determinant", props=["C05", "C16", "C08"])
+@contract("Decoder.read_length_determinant", props=["C05", "C16", "C08", "C07"])
 def _(self) -> Nat:
-    raises(OutOfDataError)
-    raises(DecodeError)
+    # X.691 11.9: exact value and exact consumption (8 or 16 bits) as functions of the unread bit string
+    raises_iff(OutOfDataError, self.number_of_bits < ld_size(self.value, self.total_number_of_bits - self.number_of_bits))
+    raises_iff(DecodeError, self.number_of_bits >= 8 and ld_bad(self.value, self.total_number_of_bits - self.number_of_bits))
     assigns(self)
-    ensures(self.number_of_bits < old(self.number_of_bits) and self.value == old(self.value))
+    ensures(self.value == old(self.value))
+    ensures(self.number_of_bits == old(self.number_of_bits)
+            - ld_size(self.value, self.total_number_of_bits - old(self.number_of_bits)))
+    ensures(result == ld_val(self.value, self.total_number_of_bits - old(self.number_of_bits)))
     ensures(result < 16384 or result == 16384 or result == 32768 or result == 49152 or result == 65536)
 
 
@@ -176,12 +183,16 @@ def _(self) -> Nat:
     ensures(0 <= result and result <= 127)
 
 
-@contract("Decoder.read_normally_small_non_negative_whole_number", props=["C05", "C16", "C08"])
+@contract("Decoder.read_normally_small_non_negative_whole_number", props=["C05", "C16", "C08", "C07"])
 def _(self) -> Nat:
+    # X.691 11.6: exact value and consumption as functions of the unread bit string
     raises(OutOfDataError)
     raises(DecodeError)
     assigns(self)
-    ensures(self.number_of_bits < old(self.number_of_bits) and self.value == old(self.value))
+    ensures(self.value == old(self.value))
+    ensures(self.number_of_bits == old(self.number_of_bits)
+            - nsn_size(self.value, self.total_number_of_bits - old(self.number_of_bits)))
+    ensures(result == nsn_val(self.value, self.total_number_of_bits - old(self.number_of_bits)))
 
 
 @contract("Decoder.read_constrained_whole_number", props=["C05", "C16", "C08"])
